@@ -65,6 +65,28 @@ Section SealAltered.
     - exfalso. destruct (requested_has_verdict req f0 Hreq) as [x [Hin Hx]]. pose proof (find_none _ _ Ef x Hin) as Hn. cbn in Hn.
       rewrite Hx, fmt_eqb_refl in Hn. discriminate.
   Qed.
+
+  (* the converse: a failing verdict is never invented -- behind it stands a recorded digest that is not the current one *)
+  Lemma forallb_false_witness {A} (P : A -> bool) l : forallb P l = false -> exists a, In a l /\ P a = false.
+  Proof.
+    induction l as [|a l IH]; cbn [forallb]; [discriminate|]. destruct (P a) eqn:E; cbn [andb]; intros H.
+    - destruct (IH H) as [b [Hb1 Hb2]]. exists b. split; [right; exact Hb1|exact Hb2].
+    - exists a. split; [left; reflexivity|exact E].
+  Qed.
+  Lemma not_failed_false f : not_failed (decide gens p dg f) = false -> exists e, find_first gens p f = Some e /\ e_digest e <> dg f.
+  Proof.
+    intros H. assert (Hd : decide gens p dg f = Failed) by (destruct (decide gens p dg f); try discriminate; reflexivity).
+    apply decide_failed in Hd. destruct Hd as [_ Hd]. exact Hd.
+  Qed.
+  Theorem false_verdict_witness req x :
+    In x (snd (seal gens p dg req)) -> snd x = false -> exists f e, find_first gens p f = Some e /\ e_digest e <> dg f.
+  Proof.
+    intros Hin Hx. rewrite seal_results in Hin. apply in_app_or in Hin. destruct Hin as [Hin|Hin]; apply in_map_iff in Hin; destruct Hin as [f [<- Hf]]; cbn [snd] in Hx.
+    - exists f. apply not_failed_false. exact Hx.
+    - destruct (all_verified gens p dg req) eqn:Ev.
+      + exists f. apply not_failed_false. exact Hx.
+      + unfold all_verified in Ev. apply forallb_false_witness in Ev. destruct Ev as [f1 [_ Hf1]]. exists f1. apply not_failed_false. exact Hf1.
+  Qed.
 End SealAltered.
 
 Section SfAltered.
@@ -114,6 +136,24 @@ Section SfAltered.
       + pose proof (IH s' (S fails) (q :: done) Hin' Hnd' Hbad'). lia.
   Qed.
 
+  (* the counter only rises at a file whose verdict is a failure *)
+  Lemma sf_fold_rise hs fmts : forall files s fails done,
+    fails < snd (fst (fold_left (sf_step Hb hs fmts) files (s, fails, done))) ->
+    exists p c s0, In (p, c) files /\ snd (seal_file Hb hs fmts s0 p c) = false.
+  Proof.
+    induction files as [|[q c] files IH]; intros s fails done H; cbn [fold_left] in H; [cbn in H; lia|].
+    assert (E : sf_step Hb hs fmts (s, fails, done) (q, c) =
+                if mem_path q done then (s, fails, done)
+                else let '(s', _, ok) := seal_file Hb hs fmts s q c in (s', if ok then fails else S fails, q :: done)) by reflexivity.
+    rewrite E in H. clear E.
+    assert (Hrec : forall s1 f1 d1, fails < snd (fst (fold_left (sf_step Hb hs fmts) files (s1, f1, d1))) -> f1 = fails ->
+                   exists p c0 s0, In (p, c0) ((q, c) :: files) /\ snd (seal_file Hb hs fmts s0 p c0) = false).
+    { intros s1 f1 d1 H1 ->. destruct (IH s1 fails d1 H1) as [p [c0 [s0 [Hi Hv]]]]. exists p, c0, s0. split; [right; exact Hi|exact Hv]. }
+    destruct (mem_path q done); [apply (Hrec s fails done H eq_refl)|].
+    destruct (seal_file Hb hs fmts s q c) as [[s' n] ok] eqn:Es. destruct ok; [apply (Hrec s' fails (q :: done) H eq_refl)|].
+    exists q, c, s. split; [left; reflexivity|rewrite Es; reflexivity].
+  Qed.
+
   (* the verdict on an altered file, at the level of seal_file *)
   Lemma seal_file_altered hs fmts f0 s p c :
     In f0 fmts ->
@@ -158,6 +198,52 @@ Section SfAltered.
     cbn [fst snd] in Hc2. cbn [snd o_outcome] in *.
     destruct (cs_abort C (commit C cdig ser hs InPlace t sess spec)); [exfalso; apply Hna; reflexivity|].
     destruct (Nat.ltb_spec 0 fails); [reflexivity|lia].
+  Qed.
+
+  (* never a false one: when create -sf exits 11, some file at or below a named path is recorded, in the history it belongs
+     to, with a digest that is not the digest of its present content *)
+  Theorem create_sf_exit_11_genuine t hs req sf ip ifl :
+    load C cdig t = inl hs ->
+    o_outcome (snd (create_sf Hb matches C cdig ser t req sf ip ifl)) = Exit 11 ->
+    exists sp p c f e, In sp sf /\
+      In (p, c) (sf_files matches C (set_patterns (latest_patterns (lh_gens (root_hist hs))) ip (pattern_file_lines ifl)) t sp) /\
+      find_first (lh_gens (route_to hs p)) (strip_prefix (lh_root (route_to hs p)) p) f = Some e /\ e_digest e <> digest_text Hb f c.
+  Proof.
+    intros Hl H11. unfold create_sf in H11. rewrite Hl in H11.
+    set (spec := set_patterns (latest_patterns (lh_gens (root_hist hs))) ip (pattern_file_lines ifl)) in *.
+    set (files := flat_map (sf_files matches C spec t) sf) in *.
+    pose proof (sf_fold_rise hs (sort_fmts req) files [] 0 []) as Hr.
+    match type of H11 with context [fold_left ?f ?l ?i] =>
+      pose proof (Hr : 0 < snd (fst (fold_left f l i)) -> _) as Hr2; clear Hr; destruct (fold_left f l i) as [[sess fails] dn] end.
+    cbn [fst snd] in Hr2. cbn [snd o_outcome] in H11.
+    destruct (cs_abort C (commit C cdig ser hs InPlace t sess spec)); [discriminate|].
+    destruct (Nat.ltb_spec 0 fails) as [Hpos|]; [|discriminate].
+    destruct (Hr2 Hpos) as [p [c [s0 [Hin Hv]]]].
+    unfold files in Hin. apply in_flat_map in Hin. destruct Hin as [sp [Hsp Hin]].
+    unfold seal_file in Hv.
+    destruct (seal (lh_gens (route_to hs p)) (strip_prefix (lh_root (route_to hs p)) p) (fun f => digest_text Hb f c) (sort_fmts req)) as [es res] eqn:Es.
+    cbn [snd] in Hv. destruct (sort_fmts req) as [|f0 l] eqn:Ef; [discriminate|].
+    destruct (find (fun x => fmt_eqb (fst x) f0) res) as [x|] eqn:Efind; [|discriminate].
+    apply find_some in Efind. destruct Efind as [Hx _].
+    assert (Hx' : In x (snd (seal (lh_gens (route_to hs p)) (strip_prefix (lh_root (route_to hs p)) p) (fun f => digest_text Hb f c) (f0 :: l)))) by (rewrite Es; exact Hx).
+    destruct (false_verdict_witness _ _ _ (f0 :: l) x Hx' Hv) as [f [e [H1 H2]]].
+    exists sp, p, c, f, e. repeat split; assumption.
+  Qed.
+  (* ... and the same for folder mode *)
+  Theorem create_exit_11_genuine t hs req no_dh ip ifl :
+    load C cdig t = inl hs ->
+    o_outcome (snd (create_folder Hb matches C cdig ser t req no_dh false ip ifl)) = Exit 11 ->
+    exists p c f e,
+      In (p, c) (ev_files (events matches C (set_patterns (latest_patterns (lh_gens (root_hist hs))) ip (pattern_file_lines ifl)) [] t)) /\
+      find_first (lh_gens (route_to hs p)) (strip_prefix (lh_root (route_to hs p)) p) f = Some e /\ e_digest e <> digest_text Hb f c.
+  Proof.
+    intros Hl H11.
+    destruct (create_exit_11_iff Hb matches C cdig ser t req no_dh ip ifl hs Hl) as [Ha|Hiff]; [rewrite H11 in Ha; discriminate|].
+    destruct (proj1 Hiff H11) as [[p c] [Hin Hff]]. unfold file_failures in Hff. cbn [fst snd] in Hff.
+    match type of Hff with length ?l <> 0 => destruct l as [|x l0] eqn:El; [exfalso; apply Hff; reflexivity|] end.
+    assert (Hx : In x (x :: l0)) by (left; reflexivity). rewrite <- El in Hx. apply filter_In in Hx. destruct Hx as [Hx Hs].
+    destruct (false_verdict_witness _ _ _ _ x Hx) as [f [e [H1 H2]]]; [destruct (snd x); [discriminate|reflexivity]|].
+    exists p, c, f, e. repeat split; assumption.
   Qed.
 
   (* the same in folder mode: create over any nesting with one such file anywhere among the files it visits: exit 11 *)
